@@ -82,6 +82,37 @@ def extract():
     out["enums"] = enums
     return out
 
+def function_body(src, signature):
+    """text of the body of the function whose definition starts with `signature` (brace matching)."""
+    i = src.find(signature)
+    if i < 0: raise ExtractError("extract:function-not-found:" + signature)
+    j = src.index("{", i)
+    depth, k = 0, j
+    while True:
+        if src[k] == "{": depth += 1
+        elif src[k] == "}":
+            depth -= 1
+            if depth == 0: break
+        k += 1
+    return src[j:k + 1]
+
+def shapes():
+    """Syntactic facts that no run-time observation can establish (returns {shape: (ok, property ids, what)})."""
+    out = {}
+    app = strip_comments(read("src/application.cpp"))
+    app = re.sub(r"POTASSCO_VERIF_YIELD\(\d+\);?", "", app)
+    try:
+        body = function_body(app, "void Application::unblockSignals(bool deliverPending)")
+        flat = re.sub(r"\s+", "", body)
+        ok = "fetch_and_store(pending_,0)" in flat and "pending_=" not in flat.replace("fetch_and_store(pending_,0)", "")
+        st = function_body(app, "static long fetch_and_store(volatile long& x, long v)")
+        ok = ok and ("__sync_lock_test_and_set(&x, v)" in st or "InterlockedExchange(&x, v)" in st)
+    except (ExtractError, ValueError):
+        ok = False
+    out["application-unblock-atomic"] = (ok, ["C18"], "Application::unblockSignals must take pending_ with ONE atomic exchange (no yield point can exist inside it, "
+                                         "so the harness cannot interleave a read/clear pair); C18_pristine_loses is the schedule that loses a signal otherwise")
+    return out
+
 def lean_ident(s):
     return s[0].lower() + s[1:]
 
